@@ -53,6 +53,7 @@ type sgen struct {
 	forData  bool // C18: mandatory / defaults / min-max / unique are generated
 	maxDepth int
 	withCfg  bool // C20 / C14: config and status statements are generated
+	noStatus bool // ... config only (a uses may not refer to a definition of lesser status: not for factored modules)
 }
 
 // config / status statements on a data definition
@@ -63,7 +64,7 @@ func (g *sgen) cfgStatus(n map[string]any, allowCfg bool) {
 	if allowCfg && g.r.Chance(22) {
 		n["config"] = g.r.Chance(90) == false // mostly config false; sometimes an explicit config true
 	}
-	if g.r.Chance(8) {
+	if !g.noStatus && g.r.Chance(8) {
 		n["status"] = pick(g.r, []string{"current", "current", "deprecated", "obsolete"})
 	}
 }
